@@ -660,9 +660,17 @@ struct MpSession : public vw::Session {
       const typename MemPool::payload_map<ATV>& fa = mp.getInFlightMap<ATV>();
       const typename MemPool::payload_map<VTB>& fw = mp.getInFlightMap<VTB>();
       const typename MemPool::payload_map<VbkBlock>& fv = mp.getInFlightMap<VbkBlock>();
-      if (!mp.relations_.empty() || !mp.vbkblocks_.empty() || !mp.stored_atvs_.empty() || !mp.stored_vtbs_.empty() ||
-          !fa.empty() || !fw.empty() || !fv.empty())
-        fail("clear left payloads behind");
+      // all six containers (three connected maps, three in-flight maps and their sorted views) and the relations
+      if (!mp.relations_.empty()) fail("clear left relations behind");
+      if (!mp.vbkblocks_.empty()) fail("clear left connected VBK blocks behind");
+      if (!mp.stored_atvs_.empty()) fail("clear left connected ATVs behind");
+      if (!mp.stored_vtbs_.empty()) fail("clear left connected VTBs behind");
+      if (!fa.empty() || !mp.getInFlightMap<ATV>().getSortedValues().empty()) fail("clear left in-flight ATVs behind");
+      if (!fw.empty() || !mp.getInFlightMap<VTB>().getSortedValues().empty()) fail("clear left in-flight VTBs behind");
+      if (!fv.empty() || !mp.getInFlightMap<VbkBlock>().getSortedValues().empty()) fail("clear left in-flight VBK blocks behind");
+      for (auto& kv : reg->atv) if (mp.isKnown<ATV>(kv.second.getId(), true)) fail("clear: ATV " + kv.first + " is still known");
+      for (auto& kv : reg->vtb) if (mp.isKnown<VTB>(kv.second.getId(), true)) fail("clear: VTB " + kv.first + " is still known");
+      for (auto& kv : reg->vbk) if (mp.isKnown<VbkBlock>(kv.second.getId(), true)) fail("clear: VBK block " + kv.first + " is still known");
       return "ok";
     }
     if (c == "rmall") {
